@@ -244,7 +244,7 @@ fn run_unix(addr: UnixAddr, class: &str, out: &mut Vec<Violation>) {
 // ------------------------------------------------------------- real kernel
 
 fn scratch(tag: &str) -> std::path::PathBuf {
-    let p = std::path::PathBuf::from(format!("/verif/scratch/c16-{}-{tag}", std::process::id()));
+    let p = std::path::PathBuf::from(format!("{}/scratch/c16-{}-{tag}", crate::report::root(), std::process::id()));
     let _ = std::fs::remove_dir_all(&p);
     std::fs::create_dir_all(&p).unwrap();
     p
